@@ -31,7 +31,7 @@ func genC08(t *rapid.T) CaseC08 {
 	// alignment_stuffing bytes between the descriptor loop and CRC_32 are part of the syntax (a clear section may carry them too)
 	c.Splice.Stuffing = rapid.SampledFrom([]int{0, 0, 0, 1, 2, 3, 4, 7, 8}).Draw(t, "alignment-stuffing")
 	c.Pointer = rapid.SampledFrom([]int{0, 0, 0, 0, 1, 2, 5, 20, 183, 254, 255, 252, 252, 2, 0xC6}).Draw(t, "pointer")
-	c.Filler = rapid.IntRange(0, 3).Draw(t, "filler")
+	c.Filler = rapid.IntRange(0, 4).Draw(t, "filler")
 	if rapid.IntRange(0, 5).Draw(t, "negative") == 0 {
 		c.Negative = rapid.SampledFrom([]string{"command", "encrypted", "table-id", "identifier", "identifier-short", "table-id-short"}).Draw(t, "neg-kind")
 		switch c.Negative {
@@ -54,7 +54,8 @@ func genC08(t *rapid.T) CaseC08 {
 // c08Input is pointer_field ++ the bytes it skips ++ section. The skipped bytes belong to whatever came before
 // in the payload (the end of another section): 0 all 0xFF, 1 a byte pattern, 2 the end of another
 // splice_info_section, 3 the bytes a section would have behind its table_id (so that, with a pointer_field whose
-// value is a table id, the payload as a whole looks like a section that starts without a pointer_field).
+// value is a table id, the payload as a whole looks like a section that starts without a pointer_field), 4 the same with
+// a section_length that announces exactly the rest of the whole input.
 func c08Input(c CaseC08, sec []byte) []byte {
 	in := []byte{byte(c.Pointer)}
 	var src []byte
@@ -63,7 +64,7 @@ func c08Input(c CaseC08, sec []byte) []byte {
 		for i := 0; i < c.Pointer; i++ {
 			src = append(src, byte(i*37+c.Pointer))
 		}
-	case 2, 3:
+	case 2, 3, 4:
 		other := (&ref.Splice{TableID: 0xFC, Tier: 0xFFF, Cmd: 0x06, TSHasPTS: true, TSPTS: 0x12345678, Descs: []ref.SpliceDesc{
 			{Foreign: true, FTag: 0x01, FBody: bytes.Repeat([]byte{0x5A}, 40)}}}).Encode()
 		for len(src) < c.Pointer+1 {
@@ -78,7 +79,11 @@ func c08Input(c CaseC08, sec []byte) []byte {
 		src = bytes.Repeat([]byte{0xFF}, c.Pointer)
 	}
 	in = append(in, src[:c.Pointer]...)
-	return append(in, sec...)
+	in = append(in, sec...)
+	if c.Filler == 4 && c.Pointer >= 2 && len(in)-3 <= 0xFFF {
+		in[1], in[2] = in[1]&0xF0|byte((len(in)-3)>>8), byte(len(in)-3)
+	}
+	return in
 }
 
 func checkC08(c CaseC08, x *hx.Ctx) *hx.Failure {
@@ -175,7 +180,7 @@ func c08Negative(c CaseC08, x *hx.Ctx) *hx.Failure {
 var propC08 = hx.Register(hx.Prop[CaseC08]{ID: "C08", Gen: genC08, Check: checkC08})
 
 func c08Rule() {
-	hx.Rec("C08").SetRule("cases: a reference-model splice_info_section over the supported syntax: splice_null / time_signal with time / splice_insert x {cancelled, program or component mode, immediate or timed, with/without break_duration, 0..4 components with/without time}; pts_adjustment, pts_time, durations and offsets from 33-/40-bit boundary sets; any tier, cw_index; protocol_version 0; real or 0xFFF splice_command_length; 0..5 descriptors: segmentation (cancelled or full, all flag combinations, 0..3 components, 40-bit duration, UPID of 0..40 bytes or MID list of 0..3 entries, named or arbitrary type, sub-segment fields for 0x34/0x36) and foreign descriptors, 0..8 alignment_stuffing bytes before CRC_32, one time in five a sibling of an earlier descriptor (same type, event id and segment numbers, differing in one other field or in none); pointer_field 0..255 (incl. values that are table ids) over 0xFF filler, a byte pattern, the end of another section or bytes that look like a section behind its table_id. One case in six is a negative: unsupported command type, encrypted bit, table id != 0xFC (also as a complete section of only 7..17 bytes), or a segmentation descriptor identifier differing from CUEI in one bit (also a tag-0x02 descriptor of another owner with 0..4 private bytes). Oracle: every getter equals the model where the syntax carries the field; PTS() = (pts_time + pts_adjustment) mod 2^33; descriptors refer back to their signal; negatives map to their sentinel errors. Non-trivial: splice_insert other than the plain program/timed form, or a 33/40-bit field with a bit >= 32 set, or >= 2 descriptors of different shapes, or a negative.",
+	hx.Rec("C08").SetRule("cases: a reference-model splice_info_section over the supported syntax: splice_null / time_signal with time / splice_insert x {cancelled, program or component mode, immediate or timed, with/without break_duration, 0..4 components with/without time}; pts_adjustment, pts_time, durations and offsets from 33-/40-bit boundary sets; any tier, cw_index; protocol_version 0; real or 0xFFF splice_command_length; 0..5 descriptors (one section in 500: 130..340 small ones): segmentation (cancelled or full, all flag combinations, 0..3 components, 40-bit duration, UPID of 0..40 bytes or MID list of 0..3 entries, named or arbitrary type, sub-segment fields for 0x34/0x36) and foreign descriptors, 0..8 alignment_stuffing bytes before CRC_32, one time in five a sibling of an earlier descriptor (same type, event id and segment numbers, differing in one other field or in none); pointer_field 0..255 (incl. values that are table ids) over 0xFF filler, a byte pattern, the end of another section or bytes that look like a section behind its table_id. One case in six is a negative: unsupported command type, encrypted bit, table id != 0xFC (also as a complete section of only 7..17 bytes), or a segmentation descriptor identifier differing from CUEI in one bit (also a tag-0x02 descriptor of another owner with 0..4 private bytes). Oracle: every getter equals the model where the syntax carries the field; PTS() = (pts_time + pts_adjustment) mod 2^33; descriptors refer back to their signal; negatives map to their sentinel errors. Non-trivial: splice_insert other than the plain program/timed form, or a 33/40-bit field with a bit >= 32 set, or >= 2 descriptors of different shapes, or a negative.",
 		"time_signal / program splice_insert with time_specified_flag 0 are outside the statement's supported list and are not generated as positives",
 		"section_length up to the 12-bit limit (long UPIDs push it beyond 1023)")
 }
